@@ -81,9 +81,13 @@ Inductive fkind :=
 (* uf_desc: the field's `description` ("" = none): a leading comment of the proto field;
    uf_keyfmt: the format of a key-typed field (`key` 0, `key:id62` 1, `key:uuid` 2): written into
    (j5.ext.v1.field).key.format since fix cf354a5; meaningless for other kinds *)
-Record ufield := mkU6 { uf_name : bytes; uf_kind : fkind; uf_required : bool; uf_optional : bool;
-                        uf_desc : bytes; uf_keyfmt : N }.
-Notation mkU n k r o := (mkU6 n k r o [] 0) (only parsing).
+(* uf_container: for the INLINE kinds only, `array:object { .. }` (1) / `map:object { .. }` (2) instead
+   of a singular field (0): a repeated field (of the entry message, for a map) whose item type is the
+   nested type; arrays / maps of the other kinds are KArray / KMap *)
+Record ufield := mkU7 { uf_name : bytes; uf_kind : fkind; uf_required : bool; uf_optional : bool;
+                        uf_desc : bytes; uf_keyfmt : N; uf_container : N }.
+Notation mkU6 n k r o d kf := (mkU7 n k r o d kf 0) (only parsing).
+Notation mkU n k r o := (mkU7 n k r o [] 0 0) (only parsing).
 (* a schema declared inside the entity block (entity.Schemas: object / oneof / enum) *)
 Inductive eschema :=
 | SObject (name : bytes) (fields : list ufield)
@@ -215,18 +219,22 @@ Definition of_sfield (s : sfield) : ofield :=
   mkF13 (sf_name s) (otype_of_item (sf_kind s)) false (sf_required s) false false None None None (sf_optional s)
         None (sf_desc s) 0.
 
+(* the type / label / presence of a field whose type is defined inline, by its container *)
+Definition inline_type (c : N) (n : bytes) (k : N) : otype :=
+  if c =? 2 then TMap (TNested n k) else TNested n k.
 Definition of_ufield (u : ufield) : ofield :=
   let d := uf_desc u in
+  let c := uf_container u in
   match uf_kind u with
   | KInlineObject fs =>
-      mkF13 (uf_name u) (TNested (to_camel (uf_name u)) 0) false (uf_required u) false false None None None
-            (uf_optional u) (Some (mkInl 0 fs [])) d 0
+      mkF13 (uf_name u) (inline_type c (to_camel (uf_name u)) 0) (negb (c =? 0)) (uf_required u) false false None None None
+            (uf_optional u && (c =? 0)) (Some (mkInl 0 fs [])) d 0
   | KInlineOneof fs =>
-      mkF13 (uf_name u) (TNested (to_camel (uf_name u)) 1) false (uf_required u) false false None None None
-            (uf_optional u) (Some (mkInl 1 fs [])) d 0
+      mkF13 (uf_name u) (inline_type c (to_camel (uf_name u)) 1) (negb (c =? 0)) (uf_required u) false false None None None
+            (uf_optional u && (c =? 0)) (Some (mkInl 1 fs [])) d 0
   | KInlineEnum os =>
-      mkF13 (uf_name u) (TNested (to_camel (uf_name u)) 2) false (uf_required u) false false None None None
-            (uf_optional u) (Some (mkInl 2 [] os)) d 0
+      mkF13 (uf_name u) (inline_type c (to_camel (uf_name u)) 2) (negb (c =? 0)) (uf_required u) false false None None None
+            (uf_optional u && (c =? 0)) (Some (mkInl 2 [] os)) d 0
   | KExt tn k =>
       mkF13 (uf_name u) (TExt tn k) false (uf_required u) false false None None None (uf_optional u) None d 0
   (* an explicitly optional array / map is NOT proto3_optional (fix d536c9b, buildProperty: a repeated
@@ -647,11 +655,18 @@ Definition is_map_field (f : ofield) : bool := match f_type f with TMap _ => tru
 Definition entry_names (fs : list ofield) : list bytes :=
   map (fun f => map_name (proto_name f)) (filter is_map_field fs).
 (* the types defined inline: their names, and - C++ scoping - the values of inline enums *)
+(* the nested type an inline field defines: its name and kind (also behind a map) *)
+Definition inline_of (f : ofield) : option (bytes * N * inline_def) :=
+  match f_inline f, f_type f with
+  | Some il, TNested n k => Some (n, k, il)
+  | Some il, TMap (TNested n k) => Some (n, k, il)
+  | _, _ => None
+  end.
 Definition inline_names (fs : list ofield) : list bytes :=
-  flat_map (fun f => match f_inline f, f_type f with
-    | Some il, TNested n _ =>
+  flat_map (fun f => match inline_of f with
+    | Some (n, _, il) =>
         n :: (if il_kind il =? 2 then map fst (status_values (to_screaming_snake n ++ [95]) (il_options il)) else [])
-    | _, _ => []
+    | None => []
     end) fs.
 Definition fields_scope (is_oneof : bool) (fs : list ofield) : list bytes :=
   map proto_name fs
